@@ -526,7 +526,8 @@ static int print_fdec(void (*printchar_handler)(void *d, int c),
     if (with_exp || is_shortened)
     {
         /* p digits after the first one; find the decimal exponent X of the
-         * rounded value: N must have exactly p + 1 digits */
+         * rounded value: N = round(|r| * 10^(p - X)) must have exactly
+         * p + 1 digits */
         int p = MIN(is_shortened ? precision - 1 : precision,
                     PRINT_FDEC_PREC_MAX);
         if (m == 0)
@@ -541,16 +542,20 @@ static int print_fdec(void (*printchar_handler)(void *d, int c),
                 ++nb;
             t = (e + nb - 1) * 1233; /* floor(log2 |r|) * log10(2) */
             X = t >= 0 ? t / 4096 : -((4095 - t) / 4096);
+            /* the number of digits of N does not grow with X: take the
+             * smallest X that gives at most p + 1 digits (a larger one can
+             * also give p + 1 digits, 1 followed by zeros, but only because
+             * it rounds one decimal place earlier) */
             for (;;)
             {
-                L = print_fdec_digits(m, e, p - X, dend);
-                if (L > p + 1)
+                if (print_fdec_digits(m, e, p - X, dend) > p + 1)
                     ++X;
-                else if (L < p + 1)
+                else if (print_fdec_digits(m, e, p - X + 1, dend) <= p + 1)
                     --X;
                 else
                     break;
             }
+            L = print_fdec_digits(m, e, p - X, dend);
         }
         if (is_shortened && X >= -4 && X < precision)
         {
